@@ -39,7 +39,7 @@ BANDITS = ["NeuralUCB", "NeuralTS"]
 MA_OFF = ["MADDPG", "MATD3"]
 SINGLE_ALGOS = DISCRETE_Q + CONT + ["PPO"] + BANDITS
 MULTI_ALGOS = MA_OFF + ["IPPO"]
-BOX_KINDS = ["box", "box_asym", "box_perdim", "box_first_widest"]
+BOX_KINDS = ["box", "box_asym", "box_perdim", "box_first_widest", "box_awkward"]
 OBJECT_MASK_OK = ("DQN", "DDQN", "Rainbow", "PPO")  # get_action stacks object arrays (what a gymnasium vector env puts in infos)
 TOL = 1e-5
 
@@ -60,6 +60,8 @@ def make_act(d):
         return sp.act_space(k, d.get("v", 0))
     if k == "box_first_widest":  # the first dimension has the widest interval
         return spaces.Box(np.array([-2.0, -1.0, -0.5], np.float32), np.array([2.0, 1.0, 0.25], np.float32), dtype=np.float32)
+    if k == "box_awkward":  # bounds that are not dyadic rationals: low + (high - low) need not round to high in float32
+        return spaces.Box(np.array([-1.5, -0.3, 0.1], np.float32), np.array([0.2, 0.7, 0.9], np.float32), dtype=np.float32)
     raise HarnessError(f"action kind {k}")
 
 
@@ -136,6 +138,10 @@ def build(spec):
     hp.update(spec.get("hp", {}))
     first = obs[0] if isinstance(obs, list) else obs
     kw = dict(net_config=ag.net_config(first, algo), index=0)
+    if "out_act" in spec:
+        # a head whose output is not squashed into the rescale interval (None / "ReLU") or squashed by another function: the
+        # learner's own clipping is then the only thing that keeps actions legal
+        kw["net_config"]["head_config"]["output_activation"] = spec["out_act"]
     kw.update(hp)
     if algo == "DQN":
         return DQN(obs, act, **kw)
@@ -784,6 +790,8 @@ def single_strategy(draw, tier):
             spec["act"] = draw(act_strategy(BOX_KINDS))
             spec["hp"] = {"vect_noise_dim": draw(st.sampled_from([1, 1, 2, 4])), "O_U_noise": draw(st.booleans()),
                           "expl_noise": draw(st.sampled_from([0.0, 0.1, 1.0, 5.0])), "mean_noise": draw(st.sampled_from([0.0, 0.0, 0.5]))}
+            if draw(st.booleans()):
+                spec["out_act"] = draw(st.sampled_from([None, None, "ReLU", "ReLU", "Sigmoid", "Softsign"]))
         else:
             spec["act"] = draw(act_strategy(["discrete", "multidiscrete", "multibinary"] + BOX_KINDS))
     width = mask_width(make_act(spec["act"]))
